@@ -234,6 +234,15 @@ def _grf(ck, D, N, key):
         ck.add(f"{tag}/shaping/{'_'.join(map(str, idx))}", sym.equal_goal(enc.outs[0][(0,) + idx], want), [L > 0] + enc.interp.sound_facts(), family="GaussianRandomField: white-noise spectrum times |k|^(-alpha/2), DC weight 1", timeout=120)
     enc2, _ = encode(lambda: IC.GaussianRandomField(D, powerlaw_exponent=4.0)(N, key=key))
     ck.add(f"{tag}/zero-mean", sym.equal_goal(_mean(enc2.outs[0]), ZERO), [], family="GaussianRandomField / DiffusedNoise: zero mean")
+    if N**D <= 6 or ck.tier == "thorough":
+        # unit maximum is a valid option without centring (zero_mean=False): |u| <= 1 everywhere, = 1 somewhere
+        for gname, mkgen in (("GaussianRandomField", lambda **kw: IC.GaussianRandomField(D, powerlaw_exponent=4.0, **kw)), ("DiffusedNoise", lambda **kw: IC.DiffusedNoise(D, **kw))):
+            encm, _ = encode(lambda mkgen=mkgen: (mkgen(zero_mean=False, max_one=True)(N, key=key), mkgen(zero_mean=False)(N, key=key)))
+            outm = encm.outs[0].reshape(-1)
+            le = [sym.rcmp("le", sym.rabs(v), ONE) for v in outm]
+            att = z3.Or(*[sym.rcmp("eq", sym.rabs(v), ONE) for v in outm])
+            nz = [z3.Or(*[sym.zr(v) != 0 for v in encm.outs[1].reshape(-1)])]
+            ck.add(f"{tag}/{gname}/max-one-without-centring", z3.And(*le, att), nz + encm.interp.sound_facts(), family="unit maximum (zero_mean=False, max_one=True)", timeout=240)
     enc3, _ = encode(lambda: IC.DiffusedNoise(D)(N, key=key))
     ck.add(f"{tag}/diffused-noise/zero-mean", sym.equal_goal(_mean(enc3.outs[0]), ZERO), [], family="GaussianRandomField / DiffusedNoise: zero mean")
 
@@ -277,15 +286,16 @@ def _function_form(ck, key):
     """generator(num_points, key) == generator.gen_ic_fun(key)(grid) for generators with a function form"""
     N = 4
     fam = "function form evaluated on the grid = sampled form"
-    for nm, gen in [("RandomDiscontinuities", IC.RandomDiscontinuities(1, num_discontinuities=2)), ("ScaledICGenerator(RandomDiscontinuities)", IC.ScaledICGenerator(IC.RandomDiscontinuities(1, num_discontinuities=1), 2.0))]:
+    for nm, gen in [("RandomDiscontinuities", IC.RandomDiscontinuities(1, num_discontinuities=2)), ("ScaledICGenerator(RandomDiscontinuities)", IC.ScaledICGenerator(IC.RandomDiscontinuities(1, num_discontinuities=1), 2.0)),
+                    ("RandomMultiChannelICGenerator", IC.RandomMultiChannelICGenerator([IC.RandomDiscontinuities(1, num_discontinuities=1), IC.RandomDiscontinuities(1, num_discontinuities=2)]))]:
         def f(gen=gen):
-            grid = ex.make_grid(gen.num_spatial_dims, gen.domain_extent if hasattr(gen, "domain_extent") else 1.0, N)
+            grid = ex.make_grid(getattr(gen, "num_spatial_dims", 1), gen.domain_extent if hasattr(gen, "domain_extent") else 1.0, N)
             return gen(N, key=key), gen.gen_ic_fun(key=key)(grid)
 
         try:
             enc, _ = encode(f)
         except Exception as ex_:  # noqa
-            ck.add(f"funform/{nm}/traces", False, [], family=fam, replay=lambda m, e=str(ex_): {"reproduced": True, "detail": "tracing failed: " + e[:200]})
+            ck.error(f"funform/{nm}: the harness could not be traced: {type(ex_).__name__}: {str(ex_)[:200]}")
             continue
         if enc.outs[0].shape != enc.outs[1].shape:
             ck.add(f"funform/{nm}/shape", False, [], family=fam, replay=lambda m: {"reproduced": True, "detail": "shapes differ"})
